@@ -42,6 +42,41 @@ package signal
 //@ invariant len(rangeDelta) == numSignalCells && len(phaseRangeDelta) == numSignalCells && len(lockTimeIndicator) == numSignalCells && len(halfCycleAmbiguity) == numSignalCells && len(cnr) == numSignalCells
 //@ decreases len(header.Signals) - rangeindex
 
+// display: an invalid rough range shows as "invalid"
 //@ func (*Cell).String
 //@ requires[C07] cell != nil
 //@ arith wrap
+//@ atcall[C08] fmt.Sprintf /^%s %2d \{%s, %s, %d, %v, %d, %\.3f\}$/: cell.Satellite != nil && cell.Satellite.RangeWholeMillis == 255 ==> argstr(a1, 2) == "invalid" && argstr(a1, 3) == "invalid"
+
+// ---- C08 ------------------------------------------------------------------------
+// Field ranges of a decoded cell (what the decoders produce): 8-bit whole ms, 10-bit
+// fractional ms, 15-bit range delta, 22-bit phase range delta.
+//@ define Cell4WF(c) = c.Satellite != nil && c.Satellite.RangeWholeMillis <= 255 && c.Satellite.RangeFractionalMillis <= 1023 && 0 - 16384 <= c.RangeDelta && c.RangeDelta < 16384 && 0 - 2097152 <= c.PhaseRangeDelta && c.PhaseRangeDelta < 2097152
+
+//@ func (*Cell).GetAggregateRange
+//@ arith wrap
+//@ requires[C07] cell != nil
+//@ ensures[C08] Cell4WF(cell) && aggRange(cell.Satellite.RangeWholeMillis, cell.Satellite.RangeFractionalMillis, 32 * cell.RangeDelta) >= 0 && cell.Satellite.RangeWholeMillis == 255 ==> result == 0
+//@ ensures[C08] Cell4WF(cell) && aggRange(cell.Satellite.RangeWholeMillis, cell.Satellite.RangeFractionalMillis, 32 * cell.RangeDelta) >= 0 && cell.Satellite.RangeWholeMillis != 255 && cell.RangeDelta == 0 - 16384 ==> result == aggRange(cell.Satellite.RangeWholeMillis, cell.Satellite.RangeFractionalMillis, 0)
+//@ ensures[C08] Cell4WF(cell) && aggRange(cell.Satellite.RangeWholeMillis, cell.Satellite.RangeFractionalMillis, 32 * cell.RangeDelta) >= 0 && cell.Satellite.RangeWholeMillis != 255 && cell.RangeDelta != 0 - 16384 ==> result == aggRange(cell.Satellite.RangeWholeMillis, cell.Satellite.RangeFractionalMillis, 32 * cell.RangeDelta)
+//@ ensures[C08] Cell4WF(cell) && aggRange(cell.Satellite.RangeWholeMillis, cell.Satellite.RangeFractionalMillis, 32 * cell.RangeDelta) >= 0 ==> result < 274877906944
+
+//@ func (*Cell).GetAggregatePhaseRange
+//@ arith wrap
+//@ requires[C07] cell != nil
+//@ ensures[C08] Cell4WF(cell) && aggPhase(cell.Satellite.RangeWholeMillis, cell.Satellite.RangeFractionalMillis, 4 * cell.PhaseRangeDelta) >= 0 && cell.Satellite.RangeWholeMillis == 255 ==> result == 0
+//@ ensures[C08] Cell4WF(cell) && aggPhase(cell.Satellite.RangeWholeMillis, cell.Satellite.RangeFractionalMillis, 4 * cell.PhaseRangeDelta) >= 0 && cell.Satellite.RangeWholeMillis != 255 && cell.PhaseRangeDelta == 0 - 2097152 ==> result == aggPhase(cell.Satellite.RangeWholeMillis, cell.Satellite.RangeFractionalMillis, 0)
+//@ ensures[C08] Cell4WF(cell) && aggPhase(cell.Satellite.RangeWholeMillis, cell.Satellite.RangeFractionalMillis, 4 * cell.PhaseRangeDelta) >= 0 && cell.Satellite.RangeWholeMillis != 255 && cell.PhaseRangeDelta != 0 - 2097152 ==> result == aggPhase(cell.Satellite.RangeWholeMillis, cell.Satellite.RangeFractionalMillis, 4 * cell.PhaseRangeDelta)
+//@ ensures[C08] Cell4WF(cell) && aggPhase(cell.Satellite.RangeWholeMillis, cell.Satellite.RangeFractionalMillis, 4 * cell.PhaseRangeDelta) >= 0 ==> result < 1099511627776
+
+// pseudorange in metres = c/1000 x (whole + frac/1024 + fine x 2^-24); fine x 2^-24 = 32 fine x 2^-29
+//@ func (*Cell).RangeInMetres
+//@ arith wrap
+//@ requires[C07] cell != nil
+//@ ensures[C08] Cell4WF(cell) && cell.Satellite.RangeWholeMillis != 255 && cell.RangeDelta != 0 - 16384 && aggRange(cell.Satellite.RangeWholeMillis, cell.Satellite.RangeFractionalMillis, 32 * cell.RangeDelta) >= 0 ==> near(result, CLIGHT_MS * (real(cell.Satellite.RangeWholeMillis) + real(cell.Satellite.RangeFractionalMillis) / 1024.0 + real(cell.RangeDelta) / 16777216.0), 4)
+
+// phase range in cycles = c/1000 x (whole + frac/1024 + fine x 2^-29) / wavelength; fine x 2^-29 = 4 fine x 2^-31
+//@ func (*Cell).PhaseRange
+//@ arith wrap
+//@ requires[C07] cell != nil
+//@ ensures[C08] Cell4WF(cell) && cell.Satellite.RangeWholeMillis != 255 && cell.PhaseRangeDelta != 0 - 2097152 && aggPhase(cell.Satellite.RangeWholeMillis, cell.Satellite.RangeFractionalMillis, 4 * cell.PhaseRangeDelta) >= 0 && cell.Wavelength > 0.0 ==> near(result * cell.Wavelength, CLIGHT_MS * (real(cell.Satellite.RangeWholeMillis) + real(cell.Satellite.RangeFractionalMillis) / 1024.0 + real(cell.PhaseRangeDelta) / 536870912.0), 6)
